@@ -44,17 +44,29 @@ fn fnv(h: &mut u64, s: &str) {
 
 /// the same bytes as a non-contiguous `Buf`: chunks separated by '.'
 fn chunk_buf(spec: &str) -> ChunkBuf {
+    if spec == "-" {
+        return ChunkBuf::new(vec![]);
+    }
     ChunkBuf::new(spec.split('.').map(|c| bytes::Bytes::from(unhex(c))).collect())
 }
 
-fn drain(mut b: ChunkBuf) -> Vec<u8> {
-    let mut out = Vec::new();
+/// the chunks of the buffer a decoder left behind, `aa.bbcc` (`-` when nothing is left), chunk boundaries included
+fn drain(mut b: ChunkBuf) -> String {
+    let mut parts: Vec<String> = Vec::new();
     while b.has_remaining() {
         let c = b.chunk().to_vec();
+        if c.is_empty() {
+            parts.push("EMPTY-CHUNK".into());
+            break;
+        }
         b.advance(c.len());
-        out.extend_from_slice(&c);
+        parts.push(hex(&c));
     }
-    out
+    if parts.is_empty() {
+        "-".into()
+    } else {
+        parts.join(".")
+    }
 }
 
 fn ps_err(e: &str) -> String {
@@ -145,7 +157,7 @@ fn main() {
             let size: u8 = size.parse().unwrap();
             let mut buf = chunk_buf(spec);
             match prefix_int_decode(size, &mut buf) {
-                Ok((f, v)) => format!("ok {} {} {}", f, v, hex(&drain(buf))),
+                Ok((f, v)) => format!("ok {} {} {}", f, v, drain(buf)),
                 Err(e) => int_err(&e).to_string(),
             }
         }
@@ -153,7 +165,7 @@ fn main() {
             let size: u8 = size.parse().unwrap();
             let mut buf = chunk_buf(spec);
             match prefix_string_decode(size, &mut buf) {
-                Ok(v) => format!("ok {} {}", hex(&v), hex(&drain(buf))),
+                Ok(v) => format!("ok {} {}", hex(&v), drain(buf)),
                 Err(e) => ps_err(&e),
             }
         }
